@@ -401,6 +401,59 @@ func main() {
 			}
 		})
 	}
+	// one LIVE tree grown leaf by leaf: values handed out earlier are used later, the way a caller uses them - the append
+	// path taken before an append predicts the state after it, and the path of the first i leaves verifies right witnesses
+	// generated many appends later
+	guard("live", map[string]interface{}{"live": true}, func() {
+		maxN := 0
+		for _, n := range ns {
+			if n > maxN && n <= 70 {
+				maxN = n
+			}
+		}
+		tree := rmt.NewRegularMerkleTree(&mapStore{m: map[string][]byte{}})
+		kept := map[int][][]byte{} // size -> the slice AppendPath() returned at that size (not copied)
+		for n := 0; n < maxN; n++ {
+			p := tree.AppendPath()
+			kept[n] = p
+			sz := tree.Size()
+			v := datum(n+1, nil)
+			if err := tree.Append(v); err != nil {
+				panic(err)
+			}
+			out.Evals++
+			res := rmt.CalculateRootFromAppendPath(v, p, sz)
+			if !bytes.Equal(res.Root, tree.Root()) || res.Size != tree.Size() || !eqPath(res.AppendPath, tree.AppendPath()) {
+				viol("predict-from-append-path", fmt.Sprintf("live tree: the append path taken at %d leaves, evaluated after the real append, predicts a root/path different from the tree's", n), map[string]interface{}{"n": n, "live": true})
+				return
+			}
+			if row, ok := sizes[n+1]; ok && !bytes.Equal(tree.Root(), fold(row.Root, nil)) {
+				viol("incremental-root", fmt.Sprintf("live tree: root after %d appends differs from the LIP-0031 root", n+1), map[string]interface{}{"n": n + 1, "live": true})
+				return
+			}
+		}
+		for i := 0; i <= maxN; i++ {
+			pre, ok := sizes[i]
+			ap, have := kept[i]
+			if !ok || !have || i == maxN {
+				continue
+			}
+			if !eqPath(ap, foldPath(pre.Path)) {
+				viol("append-path", fmt.Sprintf("live tree: the append path handed out at %d leaves was changed by later appends", i), map[string]interface{}{"n": maxN, "i": i, "live": true})
+				return
+			}
+			w, err := tree.GenerateRightWitness(uint64(i))
+			if err != nil {
+				viol("witness-error", fmt.Sprintf("live tree: GenerateRightWitness(%d) of %d: %v", i, maxN, err), map[string]interface{}{"n": maxN, "i": i, "live": true})
+				return
+			}
+			out.Witness++
+			if !rmt.VerifyRightWitness(uint64(i), ap, w, tree.Root()) {
+				viol("witness-root", fmt.Sprintf("live tree: the append path kept from %d leaves + right witness does not reconstruct the root of %d leaves", i, maxN), map[string]interface{}{"n": maxN, "i": i, "live": true})
+				return
+			}
+		}
+	})
 	for _, s := range subsets {
 		checkSubset(s.N, s.S, s.Root, rnd)
 	}
